@@ -117,3 +117,6 @@ func VerifC18Count(sys ActorSystem, receiver string) (int64, bool) {
 
 // VerifC18AddrOf returns the address text of a PID.
 func VerifC18AddrOf(pid *PID) string { return pid.getAddress().String() }
+
+// VerifC18Stopped reports that the PID has left the running state (stop / passivation completed).
+func VerifC18Stopped(pid *PID) bool { return !pid.isStateSet(runningState) }
